@@ -25,6 +25,7 @@ vars == <<l, filt, rr, x, nmsg, hdr, toReport, toWriter, cur, pend, cbQ, wireQ, 
           matched, expectRet, returned, activeCb, stopping, diverged, bad>>
 
 None == [kind |-> "none"]
+CallerGrace == 1000      \* SendActiveMessage gives up one second after the request's own time-out (milliseconds)
 Fresh == /\ rr = {} /\ x = InitX /\ nmsg = 0 /\ hdr = None /\ toReport = <<>> /\ toWriter = <<>> /\ cur = None /\ pend = "none"
          /\ cbQ = <<>> /\ wireQ = <<>> /\ pser = 0 /\ issued = <<>> /\ written = <<>> /\ outstanding = <<>>
          /\ matched = <<>> /\ expectRet = <<>> /\ returned = {} /\ activeCb = {} /\ stopping = FALSE /\ diverged = FALSE
@@ -130,7 +131,8 @@ WReissue == /\ E.ev = "w_reissue"
 \* ---- platform commands (C12)
 Ext2(fn, k, v) == [y \in DOMAIN fn \cup {k} |-> IF y = k THEN v ELSE fn[y]]
 CmdCall == /\ E.ev = "cmd_call"
-           /\ issued' = Ext2(issued, E.k, [cmd |-> E.cmd, body |-> E.body, tmo |-> E.tmo]) /\ Ok
+           /\ issued' = Ext2(issued, E.k, [cmd |-> E.cmd, body |-> E.body, tmo |-> E.tmo,
+                                            slack |-> IF "slack" \in DOMAIN E THEN E.slack ELSE CallerGrace + 300]) /\ Ok
            /\ UNCHANGED <<filt, rr, x, nmsg, hdr, toReport, toWriter, cur, pend, cbQ, wireQ, pser, written, outstanding, matched, expectRet, returned, activeCb, stopping>>
 CmdWritten == /\ E.ev = "cmd_written"
               /\ IF pend # "none" THEN Fail("WriterSkipped_" \o pend)
@@ -162,13 +164,16 @@ CmdRet == /\ E.ev = "cmd_ret"
                   THEN (IF \/ (E.kind = "notexist" /\ E.k \notin DOMAIN written)
                            \/ (E.kind = "busy" /\ E.k \notin DOMAIN written)          \* the terminal's command queue was full
                            \/ (E.kind = "closed" /\ stopping)                         \* failed by the stopping writer
+                           \* the caller's own deadline (time-out + 1 s): the writer did not complete the request in time,
+                           \* e.g. it is still queued behind a writer that is stuck writing to a terminal that stopped reading
+                           \/ (E.kind = "timeout" /\ E.ms >= issued[E.k].tmo + CallerGrace - 20 /\ E.ms <= issued[E.k].tmo + CallerGrace + 500)
                         THEN /\ returned' = returned \cup {E.k} /\ Ok
                              /\ UNCHANGED <<filt, rr, x, nmsg, hdr, toReport, toWriter, cur, pend, cbQ, wireQ, pser, issued, written, outstanding, matched, expectRet, activeCb, stopping>>
                         ELSE Fail("ReturnWithoutCompletion"))
              ELSE LET r == expectRet[E.k] IN
                   IF r.kind # E.kind THEN Fail("ReturnKind")
                   ELSE IF E.kind = "resp" /\ ~(E.echo = written[E.k] /\ r.echo = written[E.k]) THEN Fail("OwnResponse")
-                  ELSE IF E.kind = "timeout" /\ ~(E.ms >= issued[E.k].tmo - 20 /\ E.ms <= issued[E.k].tmo + 2500) THEN Fail("TimeoutTiming")
+                  ELSE IF E.kind = "timeout" /\ ~(E.ms >= issued[E.k].tmo - 20 /\ E.ms <= issued[E.k].tmo + issued[E.k].slack) THEN Fail("TimeoutTiming")
                   ELSE /\ returned' = returned \cup {E.k} /\ Ok
                        /\ UNCHANGED <<filt, rr, x, nmsg, hdr, toReport, toWriter, cur, pend, cbQ, wireQ, pser, issued, written, outstanding, matched, expectRet, activeCb, stopping>>
 \* the writer saw stopChan closed: from now on it answers outstanding and queued commands with an error
